@@ -185,6 +185,15 @@ theorem tie_wrapper_skeletons :
       "if err != nil {", "return authz.ErrUnauthorizedResponse", "}",
       "return s.checkAuthz(ctx, req.GetStoreId(), apimethod.Write, modules...)"] := by decide
 
+set_option maxRecDepth 100000 in
+/-- the in-process bypass flag is a typed context value that only `ContextWithSkipAuthzCheck` sets (it is not read from
+request metadata), and the claims come from the context value the authn middleware stored -/
+theorem tie_skip_flag :
+    Gen.Authz.skSkipAuthzCheckFromContext = ["isSkipped, ok := ctx.Value(skipAuthz).(bool)", "return isSkipped && ok"] ∧
+    Gen.Authz.skContextWithSkipAuthzCheck = ["return context.WithValue(parent, skipAuthz, skipAuthzCheck)"] ∧
+    Gen.Authz.skAuthClaimsFromContext = ["claims, ok := ctx.Value(authClaimsContextKey).(*AuthClaims)", "if !ok {", "return nil, false", "}", "return claims, true"] := by
+  decide
+
 /-! ## `authorize_spec` -/
 
 /-- What the access-control store grants: a store-level grant, or — only for a request that names modules, at most
